@@ -25,6 +25,7 @@ DIST_CELLS = [
     ("nball", "G2n", {"latent_prior": "uniform_nball"}, True, "flow"),
     ("nball-worst-point", "G2u", {"latent_prior": "uniform_nball", "constant_volume_mode": False}, True, "flow"),
     ("accumulate-weights", "G2n", {"accumulate_weights": True}, True, "flow"),
+    ("accumulate-weights-many-batches", "G2u", {"accumulate_weights": True, "drawsize": 500}, True, "flow"),
     ("truncate-log-q", "G2n", {"truncate_log_q": True}, True, "flow"),
     ("logit-reparam", "G2n", {"reparameterisations": {"x0": "logit", "x1": "logit"}}, True, "flow"),
     ("drawsize-200", "G2n", {"drawsize": 200}, True, "flow"),
@@ -38,7 +39,7 @@ DIST_CELLS = [
     ("analytic-uniform", "G4u", {}, False, "analytic"),
 ]
 QUICK_DIST = ["tg-constant-volume", "tg-constant-volume-brief-training", "tg-nonuniform-prior", "tg-worst-point-radius", "nball", "accumulate-weights", "truncate-log-q",
-              "logit-reparam", "drawsize-200", "latent-gaussian", "rejection-nonuniform", "rejection-nonuniform-box-draws", "analytic-nonuniform"]
+              "logit-reparam", "drawsize-200", "accumulate-weights-many-batches", "latent-gaussian", "rejection-nonuniform", "rejection-nonuniform-box-draws", "analytic-nonuniform"]
 
 
 def ks2(a, b):
